@@ -278,6 +278,40 @@ pub fn run(cx: &Cx) -> Acc {
     let n = cx.tier.pick(1u64, 12u64);
     acc.merge(par_proptest(cx, "random", 400_000 * n, case_strategy, |c, acc| check(c, acc)));
     acc.merge(par_proptest(cx, "many-ranges", 6_000 * n, many_ranges_strategy, |c, acc| check(c, acc)));
+    // Valid multi-byte UTF-8 inside otherwise grammatical values (random bytes >= 0x80 are almost
+    // never valid UTF-8): a 2-, 3- and 4-byte character and U+FFFD inserted at, and replacing, every
+    // position of representative values of each of the six headers.
+    let names: Vec<&str> = NAMES.to_vec();
+    acc.merge(par_units(cx, "utf8-in-values", &names, true, "{e-acute, euro sign, U+FFFD, an emoji} inserted at / replacing every byte position of 7 representative values, per header, GET and HEAD, 3 entities", |cx, name, acc| {
+        let bases: Vec<&str> = vec!["bytes=0-1", "bytes=0-1, 3-4", "BYTES=5-", "\"foo\"", "W/\"foo\", \"bar\"", "Sun, 06 Nov 1994 08:49:37 GMT", "*"];
+        for base in bases {
+            for ch in ["\u{e9}", "\u{20ac}", "\u{fffd}", "\u{1f600}"] {
+                for at in 0..=base.len() {
+                    for replace in [false, true] {
+                        if replace && at == base.len() {
+                            continue;
+                        }
+                        let mut v = String::new();
+                        v.push_str(&base[..at]);
+                        v.push_str(ch);
+                        v.push_str(&base[if replace { at + 1 } else { at }..]);
+                        for (k, (len, etag)) in [(1000u64, Some("\"foo\"")), (0, None), (u64::MAX, Some("W/\"foo\""))].into_iter().enumerate() {
+                            let mut headers = vec![(name.to_string(), Bs(v.clone().into_bytes()))];
+                            if *name == "if-range" {
+                                headers.push(("range".to_string(), Bs::s("bytes=0-1")));
+                            }
+                            let c = Case {
+                                ent: EntitySpec { etag: etag.map(|t| Bs::s(t)), mtime: crate::entity::Mtime::At(reqgen::T0, 0), ..EntitySpec::simple(len) },
+                                req: ReqSpec { method: if (at + k) % 2 == 0 { "GET".into() } else { "HEAD".into() }, headers },
+                                malformed: 1,
+                            };
+                            acc.run_case(cx, "utf8-in-values", &c, |acc| check(&c, acc));
+                        }
+                    }
+                }
+            }
+        }
+    }));
     // C06's multipart generator (decimal-width boundaries, entities of ~2^64 bytes with a range
     // covering nearly everything: the region where the multipart length overflows u64).
     acc.merge(par_proptest(
